@@ -18,3 +18,66 @@ pub fn set_wall_clock_micros(v: u64) {
 pub fn timestamp_now_stub() -> Timestamp {
     Timestamp::new(unsafe { NOW_MICROS })
 }
+
+// ------------------------------------------------------------------------------------------------
+// Keys: two distinct authors without running Ed25519 point decompression under the solver.
+// ------------------------------------------------------------------------------------------------
+use p2panda_core::{Hash, VerifyingKey};
+
+/// Author number `i`. Natively a real key derived from a fixed seed; under Kani the default key with
+/// its compressed bytes overwritten (equality/ordering/serialisation of `VerifyingKey` only look at
+/// the compressed bytes).
+pub fn key(i: u8) -> VerifyingKey {
+    #[cfg(kani)]
+    {
+        let k = VerifyingKey::default();
+        if i != 0 {
+            let p = k.as_bytes().as_ptr() as *mut u8;
+            unsafe { std::ptr::write_bytes(p, i, 32); }
+        }
+        k
+    }
+    #[cfg(not(kani))]
+    {
+        p2panda_core::SigningKey::from_bytes(&[i.wrapping_add(1); 32]).verifying_key()
+    }
+}
+
+// ------------------------------------------------------------------------------------------------
+// Hash of the stored predecessor: BLAKE3 is not bit-blasted. Under Kani `Header::hash` is stubbed to
+// return PAST_HASH (an arbitrary 32-byte value = "whatever the real hash is"); natively the real
+// BLAKE3 hash of the predecessor is used. Both modes consume the same script values.
+// ------------------------------------------------------------------------------------------------
+pub static mut PAST_HASH: [u8; 32] = [0; 32];
+
+pub fn header_hash_stub<E: p2panda_core::Extensions>(_h: &p2panda_core::Header<E>) -> Hash {
+    Hash::from_bytes(unsafe { PAST_HASH })
+}
+
+pub fn declare_past_hash<E: p2panda_core::Extensions>(past: &p2panda_core::Header<E>) -> Hash {
+    let sym_bytes = crate::sym::any_bytes::<32>();
+    #[cfg(kani)]
+    {
+        let _ = past;
+        unsafe { PAST_HASH = sym_bytes; }
+        Hash::from_bytes(sym_bytes)
+    }
+    #[cfg(not(kani))]
+    {
+        let _ = sym_bytes;
+        past.hash()
+    }
+}
+
+/// Plain-loop stand-in for `constant_time_eq::constant_time_eq_32` (inline asm is unsupported).
+pub fn cte32_stub(a: &[u8; 32], b: &[u8; 32]) -> bool {
+    let mut i = 0;
+    let mut eq = true;
+    while i < 32 {
+        if a[i] != b[i] { eq = false; }
+        i += 1;
+    }
+    eq
+}
+
+pub fn fmt_stub(_args: std::fmt::Arguments<'_>) -> String { String::new() }
